@@ -380,6 +380,7 @@ def check_property(pid, tier, seed):
             'crate_regimes': ctx.extra['regimes'].get('regimes'),
             'behavioural_tie_note': 'whole-corpus differential run (dev and release binaries vs eval checked/unchecked vs Spec.v); '
                                     'validates Expr.v and the translator; not a proof',
+            'generator_model_syntactic_match': ctx.ob.get('syntactic_match'),
             'repo_tree': ctx.ws.repo_hash[:16],
         },
         'assumptions': ['see coverage.trusted_base'],
